@@ -163,8 +163,8 @@ class C12(Check):
             sems = [forms.sem(x, scopes.SIG3) for x in conds]
             tq = [scopes.render_query(scopes.SIG3, vf) for vf in scopes.type_queries(sems, 8, 2, 1)]
             T = [("rewrite-first", k) for k in ("dneg", "cons_and_ante", "andtop")] + [("order", (2, 1, 0)), ("keys", "shift")]
-            for t in T:
-                out.append((scopes.SIG3, conds, "strong", tq, [t]))
+            out.append((scopes.SIG3, conds, "strong", tq, T[:3], "counting"))
+            out.append((scopes.SIG3, conds, "strong", tq, T[3:], "counting"))
         for conds, cls in reps3:
             T = transforms_for(len(conds), scopes.SIG3, quick)
             pairs = [("pair", T[0], ("rewrite-base", "demorgan")), ("pair", ("keys", "sparse0"), ("sig", "extend")),
@@ -179,11 +179,12 @@ class C12(Check):
 
     def run(self, task):
         res = Result()
-        sig, conds, cls, queries, T = task
+        sig, conds, cls, queries, T = task[:5]
+        counting = len(task) > 5      # duplicated-conditional bases: the operators that count / compare falsified sets, strict mode
         kconds = list(zip(range(1, len(conds) + 1), conds))
         dig = []
-        for weakly in ((False, True) if cls == "strong" else (True,)):
-            cfgs = EXT if weakly else STRICT
+        for weakly in ((False,) if counting else (False, True) if cls == "strong" else (True,)):
+            cfgs = ("w-rc2", "w-z3", "lex-rc2", "lex-z3", "c") if counting else (EXT if weakly else STRICT)
             canon = answers(sig, kconds, queries, cfgs, weakly)
             for t in T:
                 s2, kc2, q2 = apply_transform(t, sig, kconds, queries)
